@@ -21,7 +21,8 @@
    handle_upstream_chunk / handle_client_data / on_response_chunk are the identity.
    Scope: --enable-conn-pool off, no TLS interception, no client-side TLS.
 
-   The model describes /repo with these two repairs (both applied, see `git -C /repo log`):
+   The model describes /repo with these repairs (all applied, see `git -C /repo log`; also faabfc0:
+   threaded _flush tolerates every OSError, see [shutdown]):
    * ba95ac6 "fix: a response the bookkeeping parser could not digest tore down the relay"
      (proposed_fixes/C01-guard-response-parse.diff): bookkeeping parse guarded;
    * ae6ca23 "fix: output queued for the client was lost when flushing to the upstream failed"
@@ -370,7 +371,7 @@ Definition is_inactive (c : cfg) (s : hstate) (t : Z) : bool :=
   negb (has_buffer (work s)) && (timeout c <? t - last_activity s)%Z.
 
 (* HttpProtocolHandler._flush (threaded mode only): while has_buffer: select; if nothing ready: continue;
-   flush.  BrokenPipeError ends it quietly, another OSError propagates to shutdown()'s `except OSError`.
+   flush.  BrokenPipeError or any other OSError ends it quietly (faabfc0; the result still says which).
    One list element per select() call: None = timed out with nothing ready. *)
 Fixpoint threaded_flush (max : N) (sel : list (option outcome)) (w : conn) : conn * option flush_res :=
   if has_buffer w then
@@ -395,10 +396,13 @@ Definition close_upstream (s : hstate) : hstate :=
 
 Definition shutdown (c : cfg) (sel : list (option outcome)) (s : hstate) : hstate :=
   if threadless c then close_upstream (set_work (close (work s)) s)
-  else match threaded_flush (max_send c) sel (work s) with
-       | (w, Some FlushOsErr) => set_work (close w) s      (* `except OSError: pass` skips on_client_connection_close *)
-       | (w, _) => close_upstream (set_work (close w) s)
-       end.
+  else
+    (* faabfc0: _flush() catches every OSError (BrokenPipeError, ConnectionResetError, ...) and returns; the
+       close callbacks (plugin.on_client_connection_close: upstream closed) and the client close always follow.
+       Before that commit an OSError other than BrokenPipeError escaped _flush, was swallowed by shutdown()'s
+       own `except OSError: pass` and the callbacks were skipped (upstream socket left open). *)
+    let '(w, _) := threaded_flush (max_send c) sel (work s) in
+    close_upstream (set_work (close w) s).
 
 (* ---- abbreviations used in the statements *)
 Definition delivered_client (s : hstate) : bytes := sent (work s).
